@@ -106,6 +106,9 @@ type Report struct {
 	WallS              float64                `json:"wall_s"`
 	Exhaustive         bool                   `json:"exhaustive"`
 
+	// FailEvents counts every call of Fail (also repeated keys); harnesses use it to stop early.
+	FailEvents int `json:"-"`
+
 	start    time.Time
 	distinct map[string]bool
 	counts   map[string]int
@@ -179,6 +182,7 @@ func (r *Report) Disagree(stream, op, impl, model string) {
 
 // Fail records an oracle failure once per key (keeping the shortest ops).
 func (r *Report) Fail(key, desc string, ops []string) {
+	r.FailEvents++
 	if r.failKeys[key] {
 		for i := range r.OracleFailures {
 			if r.OracleFailures[i].Key == key && len(strings.Join(ops, "\n")) < len(strings.Join(r.OracleFailures[i].Ops, "\n")) {
